@@ -307,6 +307,22 @@ def run(ck):
         r_ = [cs for cs in rr.calls() if cs.name == "register" and not rr.is_cleanup(cs.bb)]
         ck.verdict(bool(u) and bool(r_) and all(rr.dominates(u[0].bb, x.bb) for x in r_), "5", "T3-must-precede", rr, "reregister=unregister-then-register", "re-arming first cancels the previous arming", "Timer::reregister does not cancel the previous arming before registering again (two live entries for one timer)", site=rr.where())
 
+    # every registration of a timer that has a deadline arms it in the wheel of the loop it is registered with: the only
+    # way around the insert is "no deadline" (a stored registration proves nothing - it may point into the wheel of a
+    # loop that no longer exists, or of another loop)
+    rg = ck.opt_body("<Timer as EventSource>::register")
+    if rg is None:
+        ck.anchor_missing("5", "T2-all-exits", "<Timer as EventSource>::register")
+    else:
+        ins_ = [cs.bb for cs in rg.calls() if cs.name in ("insert", "insert_reuse") and cs.f and "TimerWheel" in cs.f["path"] and not rg.is_cleanup(cs.bb)]
+        none_e = []
+        for sw in T.switches_on_expr(rg, lambda e: e[0] == "discr"):
+            e = rg.expr(rg.blocks[sw]["term"]["on"])
+            if any(".deadline" in p_ for r_, p_ in rg.resolve(e[2])):
+                none_e += T.discr_edges(rg, sw, 0)
+        bad = T.t2_all_exits(rg, [0], ins_, removed_edges=none_e) if ins_ else [0]
+        ck.verdict(bad is None, "5", "T2-all-exits", rg, "deadline=>armed-in-this-wheel", "a timer with a deadline is inserted into the wheel on every path through register()", "Timer::register can return Ok without arming a timer that has a deadline (e.g. because it still holds a registration from an earlier insertion, possibly into another loop): the timer never fires", site=rg.where(), path=path_descr(rg, bad) if bad else None)
+
     # ---- clause 4: cancel is final -----------------------------------------------------------------------------
     cancel_rules(ck, "4")
 
